@@ -42,6 +42,10 @@ func SignJSON(signingName string, keyID KeyID, privateKey ed25519.PrivateKey, me
 	if err = json.Unmarshal(message, &preserve); err != nil {
 		return nil, err
 	}
+	if preserve.Signatures == nil {
+		// "signatures": null resets the map made above
+		preserve.Signatures = map[string]map[KeyID]spec.Base64Bytes{}
+	}
 	if message, err = sjson.DeleteBytes(message, "signatures"); err != nil {
 		return nil, err
 	}
